@@ -137,7 +137,7 @@ def gen_module(rng, params):
             term = {"v": "ijmp"}
         elif r < 0.80:
             term = {"v": "icall"}
-        if term is None and (last_in_section or not next_is_code):
+        if (term is None or term["v"] in ("jcc", "jcc8", "call", "icall")) and (last_in_section or not next_is_code):
             # do not run off the end of code
             if rng.random() >= params.get("wild", 0.0):
                 term = {"v": rng.choice(["ret", "ret", "ijmp"])}
@@ -251,6 +251,7 @@ def _fix_alignment(isa, units):
 def gen_patch(rng, model, params, world_labels, ids, allow_cf=True, in_data=False):
     """-> patch descriptor"""
     lines = []
+    tpre = f"s{ids.n // 1000}t"
     n = rng.randint(1, 4)
     own = []
     isa = params["_isa"]
@@ -273,7 +274,7 @@ def gen_patch(rng, model, params, world_labels, ids, allow_cf=True, in_data=Fals
                 it["imm"] = rng.getrandbits(20) | 0x02000000
             lines.append(it)
         elif r < 0.6:
-            nm = f"t{len(own)}"
+            nm = f"{tpre}{len(own)}"
             temp = rng.random() < 0.8
             if not temp:
                 nm = ids("G")
@@ -308,7 +309,7 @@ def gen_patch(rng, model, params, world_labels, ids, allow_cf=True, in_data=Fals
         lines.append({"v": "jcc", "t": nm, "ttemp": temp})
     if rng.random() < 0.15 and not in_data:
         # trailing label: forces a new block after the patch
-        nm = f"t{len(own)}"
+        nm = f"{tpre}{len(own)}"
         own.append((nm, True))
         lines.append({"label": nm, "temp": True})
     return {"lines": lines}
@@ -424,7 +425,11 @@ def _gen_session(rng, model, params, index):
     ids.n = 1000 * (index + 1)
     wl = labels_of(model)
     ops = []
-    spans = [sp for lst in model.span_list.values() for sp in lst if sp.size > 0]
+    # a zero-sized block kept by an earlier deletion shares its position with
+    # the block that follows it; edits at that block are left alone (which
+    # of the two an insertion at offset 0 follows is not specified)
+    zero_at = {(id(sp.unit), sp.start) for lst in model.span_list.values() for sp in lst if sp.size == 0}
+    spans = [sp for lst in model.span_list.values() for sp in lst if sp.size > 0 and (id(sp.unit), sp.start) not in zero_at]
     if not spans or rng.random() < params.get("empty_session_p", 0.05):
         return {"ops": [], "reg_order": []}
     nspans = min(len(spans), rng.choices([1, 2, 3, 4, 6], weights=[30, 30, 20, 10, 10])[0])
@@ -449,8 +454,8 @@ def _gen_session(rng, model, params, index):
         r = rng.random()
         if r < params.get("delblock_p", 0.15):
             ops.append({"k": "delblock", "tok": toks[0][1], "proxy": rng.random() < 0.3})
-            if rng.random() < 0.3:
-                ops.insert(len(ops) - 1, {"k": "ins", "at": toks[0][1], "side": "before", "patch": gen_patch(rng, model, params, wl, ids, in_data=in_data)})
+            # (a proxy deletion stays alone on its block: what 'the labels of
+            # the deleted block' are is ambiguous once a patch precedes it)
             continue
         # walk the block left to right, choosing edits at increasing offsets
         i = 0
@@ -490,5 +495,48 @@ def _gen_session(rng, model, params, index):
                 i = j + 1
             else:
                 i += 1
+    _avoid_ambiguous(model, ops)
     order = list(range(len(ops)))
     return {"ops": ops, "reg_order": order}
+
+
+def _avoid_ambiguous(model, ops):
+    """Steer away from combinations whose listing reading is ambiguous
+    (DESIGN 9a): a trailing patch label at the end of a block when something
+    else is inserted at the same point, and a block deleted with
+    retarget_to_proxy right after a block whose end is edited in the same
+    session."""
+    from . import driver
+
+    loc = {}
+    for oi, op in enumerate(ops):
+        try:
+            key, off, length = driver.resolve_op(model, op)
+        except Exception:
+            continue
+        loc[oi] = (key, off, length)
+    # end-of-block edit points
+    ends = {}
+    for oi, (key, off, length) in loc.items():
+        sp = model.spans[key]
+        if off + length == sp.size and ops[oi]["k"] in ("ins", "rep", "del"):
+            ends.setdefault(key, []).append(oi)
+    for key, lst in ends.items():
+        sp = model.spans[key]
+        lstlist = model.span_list[sp.sect]
+        nxt = lstlist[sp.order + 1] if sp.order + 1 < len(lstlist) else None
+        nxt_proxy = nxt is not None and any(
+            ops[oi]["k"] == "delblock" and ops[oi].get("proxy") and loc.get(oi, (None,))[0] == nxt.key for oi in loc
+        )
+        for oi in lst:
+            p = ops[oi].get("patch")
+            if p and "lines" in p and (len(lst) > 1 or nxt_proxy):
+                while p["lines"] and "label" in p["lines"][-1]:
+                    p["lines"].pop()
+                if not p["lines"]:
+                    p["lines"].append({"v": "nop"})
+        if nxt_proxy:
+            # no edits at the end of the predecessor of a proxied block
+            for oi in lst:
+                ops[oi]["_drop"] = True
+    ops[:] = [op for op in ops if not op.pop("_drop", False)]
